@@ -210,7 +210,7 @@ Proof.
   (* balance up to performReassignments *)
   unfold balance_prepare in E.
   destruct (assign_all c2p p2c una (k_ca k) (k_cpc k) (sort_members (k_ca k))) as [[ca1' cpc1] sorted1] eqn:Eas.
-  destruct (assign_all_inv ms ts c2p p2c K F3 F4 HK una _ _ _ _ _ _ Eas IA) as [[A1 A2 A3 A4] A5].
+  destruct (assign_all_inv ms ts c2p p2c K F5 F3 F4 HK una _ _ _ _ _ _ Eas IA) as [[A1 A2 A3 A4] A5].
   { intro m. rewrite sort_members_In. now rewrite K1. }
   destruct (split_fixed c2p p2c (akeys c2p) ca1' []) as [ca2 fixed] eqn:Esp.
   assert (IS0 : split_inv ms ts p2c K cpc1 ca1' []).
@@ -299,3 +299,12 @@ Proof.
     - intros q H1 H2. apply (Permutation_in q (Permutation_sym B3)). apply in_or_app. now apply R5. }
   destruct e; [exact V | contradiction | exact V].
 Qed.
+
+(* The full statement of the property for the sticky strategy: Plan returns, and what it returns is valid.  It is false
+   of the code (pinned and repaired): [sticky_full_statement_refuted] below, from the non-terminating input of
+   ProofsWitness.v.  [sticky_valid] above is the statement restricted to exactly two classes of runs: those that are
+   still inside performReassignments when the fuel runs out (the assignment at that moment is valid all the same), and
+   those that take the "revert" branch of balance() while some member is set aside as fixed. *)
+Definition sticky_full_statement : Prop :=
+  forall o ms ts, wf_members ms -> wf_topics ts -> (forall mm, In mm ms -> m_ud mm <> UDErr) ->
+  exists fuel p, sticky_plan fuel true o ms ts = SOk p /\ valid_plan ms ts p.
